@@ -703,6 +703,8 @@ def check(run):
     check_stale_loop_variables(run, A, ('pb_bss.evaluation.',))
     from ..opt import check_extent_loops
     check_extent_loops(run, A, ('pb_bss.evaluation.',))
+    from ..opt import check_block_partitions
+    check_block_partitions(run, A, ('pb_bss.evaluation.',))
     from ..opt import check_result_buffers
     check_result_buffers(run, A, ('pb_bss.evaluation.',))
     check_forwarding(run, A, ('pb_bss.evaluation.',))
